@@ -160,17 +160,17 @@ Definition ex_unit : unit_ :=
     [mkFunc 1 0
        [mkSig [mkParam 2 (TUnion [TTup KClass 3 [TName KClass 8; TName KClass 21];
                                   TTup KClass 3 [TName KClass 20]]) 0 false None]
-              None None (TName KClass 8) [];
+              None None (TName KClass 8) [] [];
         mkSig [mkParam 2 (TUnion [TTup KClass 3 [TName KClass 8; TName KClass 21];
                                   TTup KClass 3 [TName KClass 20]]) 0 false None]
-              None None (TGen KClass 10 [TName KClass 1]) []]].
+              None None (TGen KClass 10 [TName KClass 1]) [] []]].
 Definition ex_unit_opt : unit_ :=
   mkUnit
     [mkConst 0 (TUnion [TName KClass 21; TName KClass 22; TName KClass 8])]
     []
     [mkFunc 1 0
        [mkSig [mkParam 2 (TGen KClass 3 [TUnion [TName KClass 8; TName KClass 20]]) 0 false None]
-              None None (TUnion [TName KClass 8; TName KClass 10]) []]].
+              None None (TUnion [TName KClass 8; TName KClass 10]) [] []]].
 
 (* the hypotheses of optimize_widens are met by a unit on which the pipeline does real work:
    D is absorbed by B and C, the tuples degenerate and merge, B is absorbed by A inside the merged
@@ -292,3 +292,137 @@ Proof.
     + eapply sub_step; [simpl; left; reflexivity | apply sub_refl].
     + apply jr_one_member.
 Qed.
+
+(* ================================================================ MergeTypeParameters with templates
+   (Opt/Model.v mtp_sig: TypeParameterScope's stack, the type_param_union of VisitUnionType, _AllContaining,
+   _ReplaceByOuterIfNecessary, ReplaceTypeParameters, SimplifyUnions).  A type parameter is read as its upper
+   value (TypeParameter.upper_value): union of the constraints, else the bound, else Any. *)
+
+(* as stated, REFUTED: class A(Generic[T]) with T bound to int, def f(self, x: Union[T, T2]) -> T2 becomes
+   def f(self, x: T) -> T; before, x and the result admit any object, afterwards only ints *)
+Definition mtp_T_bounded := TVar 1 1 true [TName KClass 8].
+Definition mtp_T := TVar 1 1 false [].
+Definition mtp_T2 := TVar 2 2 false [].
+Definition mtp_sig_ex (t : ty) : sig :=
+  mkSig [mkParam 0 (TName KClass 20) 0 false None; mkParam 2 (TUnion [t; mtp_T2]) 0 false None] None None mtp_T2 []
+        [mtp_T2].
+Definition mtp_sig_ex_out (t : ty) : sig :=
+  mkSig [mkParam 0 (TName KClass 20) 0 false None; mkParam 2 t 0 false None] None None t [] [].
+Theorem merge_type_parameters_widens_refuted : exists H ct s s' v,
+  mtp_sig ct s = Some s' /\ admits H (s_ret s) v /\ ~ admits H (s_ret s') v.
+Proof.
+  exists [], [mtp_T_bounded], (mtp_sig_ex mtp_T_bounded), (mtp_sig_ex_out mtp_T_bounded), (Obj 21 []).
+  split; [vm_compute; reflexivity|]. split; [exact I|].
+  simpl. intros S. inversion S; subst. simpl in H. contradiction.
+Qed.
+Print Assumptions merge_type_parameters_widens_refuted.
+
+(* what holds: if the class's own type parameters have no bound and no constraints, every signature is covered
+   (all hierarchies, signatures, templates; the function type parameters may be bounded) *)
+Theorem merge_type_parameters_widens_partial : forall H ct s s',
+  Forall unbounded_var ct -> mtp_sig ct s = Some s' -> sig_wider H s s'.
+Proof. exact mtp_sig_wider. Qed.
+Print Assumptions merge_type_parameters_widens_partial.
+Theorem merge_type_parameters_unit_widens : forall H u u',
+  unb_classes u -> merge_type_parameters u = Some u' -> unit_wider H u u'.
+Proof. intros H u u' U E. exact (proj1 (merge_type_parameters_wider H u u' U E)). Qed.
+Print Assumptions merge_type_parameters_unit_widens.
+Example mtp_nonvacuous :
+  Forall unbounded_var [mtp_T] /\ mtp_sig [mtp_T] (mtp_sig_ex mtp_T) = Some (mtp_sig_ex_out mtp_T).
+Proof. split; [repeat constructor; exists 1, 1, false; reflexivity | vm_compute; reflexivity]. Qed.
+
+(* ================================================================ idempotence, characterised
+   (Opt/SecondRun.v).  second_run_changes classifies an input by running the modelled steps one at a time: the
+   first step of run 2 that changes run 1's result against the last changing step of run 1. *)
+From PV Require Import Opt.SecondRun Opt.SecondRunProofs.
+
+(* exact: the second run returns its input iff the classification says CStable (every option setting of the
+   model, every unit, no well-formedness needed) *)
+Theorem optimize_idempotent_iff : forall o Hd u u1 u2,
+  opt o Hd u = Some u1 -> opt o Hd u1 = Some u2 -> (u2 = u1 <-> second_run_changes o Hd u = CStable).
+Proof. exact optimize_idempotent_iff_lemma. Qed.
+Print Assumptions optimize_idempotent_iff.
+(* every other clause names a step that is enabled and, applied to run 1's result, changes it *)
+Theorem second_run_clause_sound : forall o Hd u u1 p,
+  opt o Hd u = Some u1 ->
+  (second_run_changes o Hd u = CSingleSweep p \/ second_run_changes o Hd u = CPassNotIdempotent p
+   \/ second_run_changes o Hd u = CLatePass p) ->
+  exists j fl, nth_error passes j = Some (fl, p) /\ forallb (enabled o) fl = true /\
+               run_pass sc_collapse_single o Hd p u1 <> Some u1.
+Proof. exact second_run_clause_lemma. Qed.
+Print Assumptions second_run_clause_sound.
+(* the refuted families are clauses of the predicate *)
+Example clause_object_any : second_run_changes pytype_opts w_deps w1 = CSingleSweep PSimplifyUnions.
+Proof. vm_compute. reflexivity. Qed.
+Example clause_late_subclass : second_run_changes pytype_opts w_deps w2 = CSingleSweep PSimplifyUnionsWithSuperclasses.
+Proof. vm_compute. reflexivity. Qed.
+Example clause_single_member_unfixed :
+  second_run_changes_in false pytype_opts w_deps passes w3 = CSingleSweep PSimplifyUnions /\
+  second_run_changes pytype_opts w_deps w3 = CStable.
+Proof. split; vm_compute; reflexivity. Qed.
+
+(* a weaker sufficient condition than stable_unit, for EVERY option setting (remove_mutable included) and both
+   spellings: if every enabled step on its own leaves the unit alone, Optimize leaves it alone *)
+Theorem second_run_stable_fixpoint : forall o Hd u, second_run_stable o Hd u = true -> opt o Hd u = Some u.
+Proof. exact second_run_stable_fixpoint_lemma. Qed.
+Print Assumptions second_run_stable_fixpoint.
+Theorem stable_unit_second_run_stable : forall kk o Hd u,
+  lossless o -> (o_deps o && o_can_do_lookup o = true -> kk = KClass) ->
+  stable_unit kk o Hd u = true -> second_run_stable o Hd u = true.
+Proof. exact stable_unit_second_run_stable_lemma. Qed.
+Print Assumptions stable_unit_second_run_stable.
+(* strictly weaker: x: Union[NamedType K0, ClassType K1] without deps is no normal form in either spelling *)
+Definition ex_mixed : unit_ := mkUnit [mkConst 0 (TUnion [TName KNamed 20; TName KClass 21])] [] [].
+Definition ex_nodeps : opts := mkOpts false false false 7 false true.
+Example second_run_stable_strictly_weaker :
+  second_run_stable ex_nodeps [] ex_mixed = true /\
+  stable_unit KNamed ex_nodeps [] ex_mixed = false /\ stable_unit KClass ex_nodeps [] ex_mixed = false.
+Proof. vm_compute. auto. Qed.
+
+(* ================================================================ Node.Visit's identity short-cut
+   visit_sc hands the ORIGINAL union to the callback when no child changed (the code tests `is`; a child that is
+   rebuilt equal takes the rebuilding branch, which then re-normalises to the same list).  On types whose unions
+   were all built by the UnionType constructor it is the always-rebuilding visitor of the model. *)
+Theorem visit_identity_shortcut : forall fU fG fN fB t,
+  ctor_built t = true -> visit_sc fU fG fN fB t = visit fU fG fN fB t.
+Proof. exact visit_sc_eq. Qed.
+Print Assumptions visit_identity_shortcut.
+Theorem visit_shortcut_needs_constructor_built :
+  let t := TUnion [TUnion [TName KClass 8; TName KClass 2]] in
+  ctor_built t = false /\ visit_sc TUnion TGen TName id_kind t <> visit TUnion TGen TName id_kind t.
+Proof. exact visit_sc_needs_ctor_built. Qed.
+Print Assumptions visit_shortcut_needs_constructor_built.
+
+(* msgspec `==`/hash on Literal values is Python's: Literal(True) == Literal(1).  De-duplicating by it loses a
+   nominally different literal (RemoveDuplicates drops `def f() -> Literal[1]` next to `-> Literal[True]`);
+   without bool literals it IS the structural equality the model uses. *)
+Theorem literal_eq_conflation_refuted : exists l v, In v l /\ ~ In v (dedup_by lv_py_eqb l).
+Proof. exact literal_eq_conflation. Qed.
+Print Assumptions literal_eq_conflation_refuted.
+Theorem literal_eq_structural_partial : forall l,
+  forallb is_lint l = true -> dedup_by lv_py_eqb l = dedup_by lv_eqb l.
+Proof. exact literal_eq_no_bool. Qed.
+Print Assumptions literal_eq_structural_partial.
+
+(* ================================================================ CombineContainers: the fuel is sufficient
+   (Opt/Fuel.v).  The re-visit of merged parameters is not structural; the model runs it with fuel 2*size+2.
+   Measure: merged parameters have no union directly inside a union and a smaller container depth, so fuel
+   2 * depth always suffices.  For EVERY type (no well-formedness): the model's CombineContainers never runs
+   out of fuel, the totalised [combine_containers] is the fuelled function, and the pass never leaves the model. *)
+From PV Require Import Opt.Fuel.
+Theorem cc_fuel_sufficient : forall t, cc_top t <> None.
+Proof. exact cc_top_total. Qed.
+Print Assumptions cc_fuel_sufficient.
+Theorem combine_containers_is_fuelled : forall t, cc_top t = Some (combine_containers t).
+Proof. exact combine_containers_spec. Qed.
+Print Assumptions combine_containers_is_fuelled.
+Theorem combine_containers_pass_total : forall cs o Hd u,
+  run_pass cs o Hd PCombineContainers u = Some (map_ty_unit combine_containers u).
+Proof. intros cs o Hd u. simpl. rewrite cc_pass_total. reflexivity. Qed.
+Print Assumptions combine_containers_pass_total.
+(* non-vacuity: the merge re-visit really nests (a merge inside a merged parameter) *)
+Example cc_nested_revisit :
+  combine_containers (TUnion [TGen KClass 10 [TGen KClass 10 [TName KClass 8]];
+                              TGen KClass 10 [TGen KClass 10 [TName KClass 2]]])
+  = TGen KClass 10 [TGen KClass 10 [TUnion [TName KClass 8; TName KClass 2]]].
+Proof. vm_compute. reflexivity. Qed.
